@@ -277,6 +277,56 @@ def stereo_variants(mol, rng, limit=16):
             yield bits, new
 
 
+REGULAR = ['C1CC1', 'C1CCC1', 'C1CCCC1', 'C1CCCCC1', 'C1CCCCCCC1', 'c1ccccc1', 'C1=CC=CC=CC=C1', 'C=C', 'CC', 'CCC', 'O', '[Na+]', '[Cl-]',
+           'N1CC1', 'C1CCCCCCCCC1', 'C1CC1C1CC1', '[NH4+]', 'C#C']
+
+
+def mixtures():
+    """every unordered pair and triple (with repetition) of small regular components: rings of several sizes, chains, ions.
+    All atoms of the saturated rings share one refinement class, so only the writer can order the components"""
+    import itertools
+    for k in (2, 3):
+        for combo in itertools.combinations_with_replacement(range(len(REGULAR)), k):
+            yield '.'.join(REGULAR[i] for i in combo)
+
+
+_SIDES = [('[C@H]', '[C@@H]', 'C'), ]
+_LINKS = ['', 'C', 'CC', 'CCC', 'O', 'C(=O)', 'c1ccc(cc1)', 'C=C', 'C#C', 'N(C)', 'C(C)(C)', 'S(=O)(=O)', 'C1CC1', 'c1cc(ccc1)']
+
+
+def symmetric_dimers():
+    """constitutionally symmetric molecules whose two (three) equivalent stereo elements carry every combination of labels,
+    including partially labelled ones: tetrahedral pairs, double-bond pairs, allene pairs, trimers on a symmetric core"""
+    out = []
+    t = ('[C@H]', '[C@@H]', 'C')
+    for link in _LINKS:
+        for a in t:
+            for b in t:
+                out.append('C%s(O)%s%s(O)C' % (a, link, b))
+                out.append('F%s(Cl)C%sC%s(F)Cl' % (a.replace('H', ''), link, b.replace('H', '')) if False else 'CC%s(N)%s%s(N)CC' % (a, link, b))
+    d = ('/', '\\', '')
+    for link in ('C', 'CC', 'O', 'c1ccc(cc1)', 'C(=O)', 'CCC'):
+        for a in d:
+            for b in d:
+                out.append('C%sC=C%s%s%sC=C%sC' % ('/' if a else '', a, link, '/' if b else '', b))
+    al = ('[C@]', '[C@@]', 'C')
+    for link in ('C', 'CC', 'O'):
+        for a in al:
+            for b in al:
+                out.append('CC(F)=%s=C(C)%sC(C)=%s=C(C)F' % (a, link, b))
+    for a in t:
+        for b in t:
+            for c in t:
+                out.append('C%s(O)CC(C%s(O)C)C%s(O)C' % (a, b, c))
+                out.append('C%s(F)c1cc(%s(F)C)cc(%s(F)C)c1' % (a, b, c))
+    for a in t:
+        for b in t:
+            out.append('F%s(Cl)(Br)%s(F)(Cl)Br' % (a.replace('H', ''), b.replace('H', '')))
+            out.append('C%s(O)C.C%s(O)CC.C%s(O)C' % (a, b, a))
+            out.append('C%s(O)CC.C%s(O)CC' % (a, b))
+    return sorted(set(out))
+
+
 def base_molecules(rng, n_corpus, n_special=None, n_ring=0, decorate_p=0.5, normalize=True):
     """mixed workload: corpus sample + curated + ring assemblies, part of them decorated"""
     out = []
